@@ -129,13 +129,13 @@ theorem inv_accept {len : Nat} {st : GsubState} {start stop : Int} (h : Inv len 
       · have := hm'.2.2 he; omega
 
 /-- the invariant holds in every final state, the loop never runs out of fuel and never slices out of range -/
-theorem gsubLoop_inv (s : Subject) (matcher : Matcher) (repl : List Capture → ReplOut) (n : Option Nat)
+theorem gsubLoop_inv (s : Subject) (matcher : Matcher) (repl : List Capture → ReplOut) (n : Option Nat) (anchored : Bool)
     (hm : MatcherOK s.size matcher) (fuel : Nat) (st : GsubState) (h : Inv s.size st)
     (hf : (s.size : Int) + 2 ≤ fuel + st.si) :
-    (∃ st', gsubLoop s matcher repl n fuel st = .done st' ∧
+    (∃ st', gsubLoop s matcher repl n anchored fuel st = .done st' ∧
         st'.visited.Pairwise (· > ·) ∧ st'.accepted.Pairwise After) ∨
-    gsubLoop s matcher repl n fuel st = .replErr ∨
-    (∃ w, gsubLoop s matcher repl n fuel st = .panic w ∧ ∃ caps, repl caps = .panic w) := by
+    gsubLoop s matcher repl n anchored fuel st = .replErr ∨
+    (∃ w, gsubLoop s matcher repl n anchored fuel st = .panic w ∧ ∃ caps, repl caps = .panic w) := by
   induction fuel generalizing st with
   | zero => have := h.si_le; omega
   | succ k ih =>
@@ -170,10 +170,14 @@ theorem gsubLoop_inv (s : Subject) (matcher : Matcher) (repl : List Capture → 
                 · exact Or.inr (Or.inl hx)
                 · exact Or.inr (Or.inr hx)
               have hinv := inv_accept h h1 h2 h3 hacc' (st.out ++ pre ++ sub)
-              apply ih _ hinv
-              unfold advance
-              simp only
-              split <;> omega
+              cases anchored with
+              | true => exact Or.inl ⟨_, rfl, hinv.visited_sorted, hinv.acc_sorted⟩
+              | false =>
+                simp only [Bool.false_eq_true, if_false]
+                apply ih _ hinv
+                unfold advance
+                simp only
+                split <;> omega
           · simp only [hacc, if_false, Bool.false_eq_true]
             have hrej : ¬ (st.allowEmpty = true ∨ gc.start ≠ st.si ∨ gc.stop ≠ st.si) := by
               intro hor
@@ -184,9 +188,13 @@ theorem gsubLoop_inv (s : Subject) (matcher : Matcher) (repl : List Capture → 
               · exact Or.inl (Or.inr hx)
               · exact Or.inr hx
             have hinv := inv_reject h h1 h2 h3 hrej
-            apply ih _ hinv
-            unfold advance
-            simp only
-            split <;> omega
+            cases anchored with
+            | true => exact Or.inl ⟨_, rfl, hinv.visited_sorted, hinv.acc_sorted⟩
+            | false =>
+              simp only [Bool.false_eq_true, if_false]
+              apply ih _ hinv
+              unfold advance
+              simp only
+              split <;> omega
 
 end GoluaVerif.Model.Gsub
